@@ -140,24 +140,24 @@ SjGenRand(sec32, ns) == SjRandFrom(0, ns, sec32, << >>)
 SjPos(used, x) == IF \E j \in 1..Len(used) : used[j] = x
                   THEN (CHOOSE j \in 1..Len(used) : used[j] = x) - 1 ELSE Len(used)   \* 0-based; Len(used) = absent
 
-\* the caller claims: output = input_index + (outkey - inkey) G
-SjKeysMatch(ins, out, index, inkey32, outkey32) ==
-  /\ index < Len(ins)
-  /\ PAdd(ins[index + 1], PMulG(SSub(FromBytesBE(outkey32), FromBytesBE(inkey32)))) = out
+\* does the key difference d open the difference between the output and input j (0-based)?
+SjOpens(ins, out, D, j) == j < Len(ins) /\ PAdd(ins[j + 1], D) = out
 
 \* st: "illegal" (empty selection: documented misuse, the illegal callback fires), "refuse" (returns 0),
-\* "unspecified" (claimed input not selected, or the keys do not open the claimed difference: nothing is
-\* promised about the return value -- but no proof verifying for these tags can come out),
-\* "ok"/"fail" with the signature (fail only on a cryptographically unreachable hash value).
+\* "ok"/"fail" with the signature when the claimed input is selected and the keys open its difference
+\* (fail only on a cryptographically unreachable hash value).  Otherwise nothing is promised about the
+\* return value: "nowitness" when the key difference opens NO selected input (then no proof verifying for
+\* these tags can come out), "unspecified" when it happens to open another selected one.
 SjGenerate(n, bm, ins, out, index, inkey32, outkey32) ==
   LET used == SjUsed(n, bm)  k == Len(used)
-      ki == FromBytesBE(inkey32)  ko == FromBytesBE(outkey32) IN
+      ki == FromBytesBE(inkey32)  ko == FromBytesBE(outkey32)
+      D == PMulG(SSub(ko, ki)) IN
   IF k = 0 THEN [ st |-> "illegal", data |-> << >> ]
   ELSE IF ~Lt(ki, N) \/ ~Lt(ko, N) THEN [ st |-> "refuse", data |-> << >> ]
   ELSE IF \E i \in 1..Len(ins) : ins[i] = out THEN [ st |-> "refuse", data |-> << >> ]
   ELSE IF n # Len(ins) THEN [ st |-> "refuse", data |-> << >> ]
-  ELSE IF SjPos(used, index) = k \/ ~SjKeysMatch(ins, out, index, inkey32, outkey32)
-       THEN [ st |-> "unspecified", data |-> << >> ]
+  ELSE IF SjPos(used, index) = k \/ ~SjOpens(ins, out, D, index)
+       THEN [ st |-> IF \E j \in 1..k : SjOpens(ins, out, D, used[j]) THEN "unspecified" ELSE "nowitness", data |-> << >> ]
   ELSE LET sec == SSub(ko, ki)
            pos == SjPos(used, index)
            rnd == SjGenRand(Scalar32(sec), k) IN
